@@ -120,31 +120,35 @@ def dispatch (dict : List Entry) (raw : Avp) : Option Entry :=
   | some e => if e.vendor.isSome == raw.vendor.isSome then some e else none
   | none => none
 
+/-- re-construction of one raw AVP by its dictionary class (`cls(avp.data)`); `kids ()` is the result
+    of re-parsing the data, consulted for Grouped classes only -/
+def materialise (dict : List Entry) (raw : Avp) (kids : Unit → Except Err (List LAvp)) : Except Err LAvp :=
+  match dispatch dict raw with
+  | none => .ok (.mk raw none [])
+  | some e =>
+    if e.kind = .grouped then
+      match kids () with
+      | .error er => .error er
+      | .ok ks =>
+        if e.mandatory.all (fun m => ks.any (fun k => k.avp.code == m.2)) then
+          .ok (.mk { code := e.code, flags := e.flags, vendor := e.vendor,
+                     data := ks.flatMap (fun k => k.avp.dump) } (some e.name) ks)
+        else .error (.lib "AVPAttributeValueError")
+    else
+      match acceptLeaf e.kind e.values raw.data with
+      | .error er => .error er
+      | .ok () => .ok (.mk { code := e.code, flags := e.flags, vendor := e.vendor, data := raw.data } (some e.name) [])
+
 /-- `DiameterAVP.load`: parse, dispatch and re-construct AVP by AVP, in stream order (so the first
     failing AVP determines the error); a Grouped class re-parses its data and *rebuilds* it from the
-    re-dumped members. Well-founded on the length of the stream. -/
+    re-dumped members. Well-founded on the length of the stream: every iteration consumes at least 8
+    bytes (`parseOne_ok`), and the data of an AVP is shorter than the stream it came from. -/
 def loadAvps (dict : List Entry) (s : Bytes) : Except Err (List LAvp) :=
   if h0 : s = [] then .ok [] else
   match h : parseOne s with
   | .error e => .error e
   | .ok (raw, rest) =>
-    let one : Except Err LAvp :=
-      match dispatch dict raw with
-      | none => .ok (.mk raw none [])
-      | some e =>
-        if e.kind = .grouped then
-          match loadAvps dict raw.data with
-          | .error er => .error er
-          | .ok kids =>
-            if e.mandatory.all (fun m => kids.any (fun k => k.avp.code == m.2)) then
-              .ok (.mk { code := e.code, flags := e.flags, vendor := e.vendor,
-                         data := kids.flatMap (fun k => k.avp.dump) } (some e.name) kids)
-            else .error (.lib "AVPAttributeValueError")
-        else
-          match acceptLeaf e.kind e.values raw.data with
-          | .error er => .error er
-          | .ok () => .ok (.mk { code := e.code, flags := e.flags, vendor := e.vendor, data := raw.data } (some e.name) [])
-    match one with
+    match materialise dict raw (fun _ => loadAvps dict raw.data) with
     | .error er => .error er
     | .ok a =>
       match loadAvps dict rest with
